@@ -85,6 +85,21 @@ func suiteHist(seed uint64, n int, work, prof string) {
 	case "fault":
 		suiteFault(seed, n, work)
 		return
+	case "opts":
+		suiteOpts(seed, n, work)
+		return
+	case "crash":
+		suiteCrash(seed, n, work, false)
+		return
+	case "power":
+		suiteCrash(seed, n, work, true)
+		return
+	case "modes":
+		suiteModes(seed, n, work)
+		return
+	case "fuzz":
+		suiteFuzz(seed, n, work)
+		return
 	}
 	p := profileByName(prof)
 	st := NewSt(work)
